@@ -2,6 +2,7 @@ import NurbsVerif.Lemmas.BasisProps
 import NurbsVerif.Lemmas.Span
 import NurbsVerif.Lemmas.SpanBin
 import NurbsVerif.Model.Knots
+import NurbsVerif.Lemmas.DersSum
 
 /-!
 # C03  Basis functions and knot-span search satisfy their defining identities
@@ -65,6 +66,19 @@ theorem basisFuns_eq_coxDeBoor (U : ℕ → K) (k : ℕ) (u : K) (hm : Monotone 
     (p : ℕ) (hp : p ≤ k) (i : ℕ) :
     cdb U p i u = if k ≤ i + p ∧ i ≤ k then (basisFuns p U k u).getD (i + p - k) 0 else 0 :=
   cdb_eq_basisFuns U k u hm h1 h2 p hp i
+
+/-- **The k-th derivatives (k ≥ 1) of the non-vanishing basis functions sum to zero** – for the model
+    `basisDers` that `helpers.basis_function_ders` (A2.3) is compared with: the derivatives of the span
+    polynomials of the unit control sequences (every degree, sorted knots, non-empty span, order). -/
+theorem basisDers_sum_zero (p : ℕ) (U : ℕ → K) (κ : ℕ) (u : K) (d k : ℕ)
+    (hp : p ≤ κ) (hm : Monotone U) (hspan : U κ < U (κ+1)) (hk1 : 1 ≤ k) (hk : k ≤ d) :
+    ∑ r ∈ Finset.range (p+1), ((basisDers p U κ u d).getD k []).getD r 0 = 0 :=
+  Geomdl.basisDers_sum_zero p U κ u d k hp hm hspan hk1 hk
+
+/-- … and the zeroth row of that table is A2.2 itself. -/
+theorem basisDers_zero_row (p : ℕ) (U : ℕ → K) (κ : ℕ) (u : K) (d r : ℕ) (hp : p ≤ κ) (hr : r ≤ p) :
+    ((basisDers p U κ u d).getD 0 []).getD r 0 = (basisFuns p U κ u).getD r 0 :=
+  Geomdl.basisDers_zero_row p U κ u d r hp hr
 
 /-- "all degrees" variant: entry `[j][i]` is entry `j` of the degree-`i` basis (and `None` above the diagonal). -/
 theorem basisFunAll_eq (p : ℕ) (U : ℕ → K) (k : ℕ) (u : K) (j i : ℕ) (hj : j ≤ p) (hi : i ≤ p) :
